@@ -284,9 +284,9 @@ theorem pog_traceback_complete (n1 n2 : Nat) (ap : List Pos) (h : apValid n1 n2 
 
 /-- **Progressive alignment returns equal-length rows that degap to the inputs — for ANY guide tree.**  For every
 binary guide tree (any shape, any number of leaves, any sequences) and any DP outcome at every internal node, the
-rows produced by the column merge — the code as it is (`fixed = false`) and the proposed repair (`fixed = true`) —
-degap to the leaf sequences, in leaf order, and all have the length of the root's completed position list.
-(Structural induction on the tree.) -/
+rows produced by the column merge — the code in /repo since the repair 0eea0ba09 (`fixed = true`, the variant the harness
+probes and ties on every run) and the code before it (`fixed = false`) — degap to the leaf sequences, in leaf order, and
+all have the length of the root's completed position list.  (Structural induction on the tree.) -/
 theorem progressive_rows_degap {α : Type} (fixed : Bool) (t : GTree α) (h : t.valid = true) :
     (t.rows fixed).map degap = t.leaves ∧ ∀ r ∈ t.rows fixed, r.length = t.width :=
   GTree.rows_spec fixed t h
@@ -294,8 +294,11 @@ theorem progressive_rows_degap {α : Type} (fixed : Bool) (t : GTree α) (h : t.
 /-- **The repaired column merge keeps every sub-alignment** (all guide trees, all DP outcomes): at every internal
 node the rows of the result that belong to the left (right) subtree, restricted to the columns that come from that
 child, are exactly the child's alignment; the removed columns are gaps in all of these rows by construction
-(`specMerge`).  So the columns the DP aligned are columns of the returned alignment.  This is a theorem about the
-PROPOSED repair `fixes/C18-progressive-column-merge.patch`; for the code as it is see the counterexample below. -/
+(`specMerge`).  So the columns the DP aligned are columns of the returned alignment.  This is the theorem about the
+code AS IT IS in /repo: the repair `fixes/C18-progressive-column-merge.patch` was applied there as commit 0eea0ba09
+(`_calcAligneds` converts the parent's column gaps to sequence positions of each row before `merge_maps`), the harness
+probes the variant under test on every run and ties the real rows to `fixed = true`.  The name keeps `_repaired` because
+the counterexample below documents the code before that commit. -/
 theorem progressive_keeps_children_repaired {α : Type} (l r : GTree α) (ap : List Pos)
     (h : (GTree.node l r ap).valid = true) :
     (((GTree.node l r ap).rows true).take (l.rows true).length).map (project false (GTree.node l r ap).full) = l.rows true ∧
@@ -305,7 +308,20 @@ theorem progressive_keeps_children_repaired {α : Type} (l r : GTree α) (ap : L
 def exInner : GTree Char := .node (.leaf ['C', 'A']) (.leaf ['A']) [(some 0, none), (some 1, some 0)]
 def exTree : GTree Char := .node (.leaf ['G', 'A']) exInner [(none, some 0), (some 0, none), (some 1, some 1)]
 
-/-- **The code as it is does NOT keep sub-alignments** (kernel-evaluated witness, 3 sequences GA, CA, A on the guide
+/-- **Progressive alignment, everything about the rows in one statement, for the code in /repo** (`fixed = true`):
+at every internal node of every valid guide tree the rows degap to the leaves below it in leaf order, have the width of
+the node, and restricted to a child's columns are that child's alignment. -/
+theorem progressive_alignment_sound {α : Type} (l r : GTree α) (ap : List Pos)
+    (h : (GTree.node l r ap).valid = true) :
+    ((GTree.node l r ap).rows true).map degap = l.leaves ++ r.leaves ∧
+    (∀ row ∈ (GTree.node l r ap).rows true, row.length = (GTree.node l r ap).width) ∧
+    (((GTree.node l r ap).rows true).take (l.rows true).length).map (project false (GTree.node l r ap).full) = l.rows true ∧
+    (((GTree.node l r ap).rows true).drop (l.rows true).length).map (project true (GTree.node l r ap).full) = r.rows true :=
+  ⟨(GTree.rows_spec true _ h).1, (GTree.rows_spec true _ h).2, (GTree.keeps_children l r ap h).2⟩
+
+/-- **REGRESSION NOTE — the code BEFORE commit 0eea0ba09 did NOT keep sub-alignments** (variant `fixed = false`;
+finding C18-progressive-merge-applies-column-gaps-at-sequence-positions, now fixed; its witness is re-checked on every
+run).  Kernel-evaluated witness, 3 sequences GA, CA, A on the guide
 tree (GA,(CA,A))): the inner node aligns `CA / -A`; the root inserts a gap column between the inner columns; the
 third row becomes `-A-` (its `A` under the `G`) instead of `--A`: the parent gap at COLUMN 1 is applied at
 SEQUENCE position 1. -/
